@@ -112,7 +112,13 @@ Res run_scn(Scn const& sc)
 				// the reply names the relay endpoint; send the datagram(s) of this case to it
 				int rport = (unsigned char)R.client_got[reply_len - 2] << 8 | (unsigned char)R.client_got[reply_len - 1];
 				cudp.open(ip::udp::v4()); cudp.bind(ip::udp::endpoint(addr("10.0.0.1"), 4700)); cudp.non_blocking(true); curead();
-				error_code e2; if (!sc.udp_dgram.empty() || sc.udp_case >= 0) cudp.send_to(asio::buffer(sc.udp_dgram), ip::udp::endpoint(addr("10.0.2.1"), (unsigned short)rport), 0, e2);
+				error_code e2;
+				if (sc.udp_case == 6) { // a third party's datagram reaches the relay first; the client's own first datagram follows 5 ms later
+					bytes un = "unsolicited"; uudp.send_to(asio::buffer(un), ip::udp::endpoint(addr("10.0.2.1"), (unsigned short)rport), 0, e2);
+					auto t1 = std::make_shared<asio::high_resolution_timer>(nC); t1->expires_after(ms(5)); auto dg = std::make_shared<bytes>(sc.udp_dgram);
+					t1->async_wait([&, t1, dg, rport](error_code const&) { error_code e3; cudp.send_to(asio::buffer(*dg), ip::udp::endpoint(addr("10.0.2.1"), (unsigned short)rport), 0, e3); });
+				} else
+				if (!sc.udp_dgram.empty() || sc.udp_case >= 0) cudp.send_to(asio::buffer(sc.udp_dgram), ip::udp::endpoint(addr("10.0.2.1"), (unsigned short)rport), 0, e2);
 				if (sc.udp_case == 4) { // two more datagrams after the first: by the same name again (answered from the proxy's name cache), then by address
 					std::string nm4 = name_of_len(4); auto d2 = std::make_shared<bytes>(B({ 0, 0, 0, 3, 4 }) + nm4 + B({ 9500 >> 8, 9500 & 0xff }) + "second"); auto d3 = std::make_shared<bytes>(B({ 0, 0, 0, 1, 10, 0, 1, 1, 9500 >> 8, 9500 & 0xff }) + "third");
 					auto t1 = std::make_shared<asio::high_resolution_timer>(nC); auto t2b = std::make_shared<asio::high_resolution_timer>(nC);
@@ -186,6 +192,12 @@ Res run_scn(Scn const& sc)
 					std::string all; for (auto& d : tudp_got) all += d + "|";
 					if (all != "ping-payload|second|third|") fail("udp_forward: three datagrams were sent through the relay (by name, by the same name again, by address); the target received: " + jesc(all));
 				}
+				if (sc.udp_case == 6) {
+					// whatever the relay does with the stranger's datagram, the client's own datagram is forwarded and answered
+					if (tudp_got.size() != 1 || tudp_got[0] != "ping-payload") fail(fmt("udp_forward: a third party's datagram reached the relay before the client's first one; the target then received %zu datagrams%s instead of the client's payload", tudp_got.size(), tudp_got.empty() ? "" : (" (first: " + jesc(tudp_got[0].substr(0, 30)) + ")").c_str()));
+					bool answered = false; for (auto& d : cudp_got) if (d.size() >= 15 && d.substr(d.size() - 15) == "re:ping-payload") answered = true;
+					if (!answered) fail(fmt("udp_reply: a third party's datagram reached the relay before the client's first one; the client never got the target's answer (%zu datagrams received)", cudp_got.size()));
+				}
 				if (sc.udp_case <= 2) {
 					if (tudp_got.size() != 1 || tudp_got[0] != "ping-payload") fail(fmt("udp_forward: the target received %zu datagrams%s, expected exactly the payload with the header stripped", tudp_got.size(), tudp_got.empty() ? "" : (" (first: " + jesc(tudp_got[0].substr(0, 30)) + ")").c_str()));
 					size_t want_n = sc.udp_case == 2 ? 2 : 1;
@@ -209,6 +221,12 @@ Res run_scn(Scn const& sc)
 			if (replied || R.counts == alt) wantc = alt;
 		}
 		if (R.counts != wantc) fail(fmt("cmd_counts: counters are {%d,%d,%d}, expected {%d,%d,%d}", R.counts[0], R.counts[1], R.counts[2], wantc[0], wantc[1], wantc[2]));
+	}
+	if (sc.has_override && sc.eof_after && !threw) {
+		// a client that hangs up before a single byte of its request has been sent made no request: only the bystander's CONNECT is counted
+		size_t const before_request = n.ver == 5 ? msgs[0].size() : 0;
+		if (sc.override_stream.size() <= before_request) { std::array<int, 3> wantc{ { with_by ? 1 : 0, 0, 0 } };
+			if (R.counts != wantc) fail(fmt("cmd_counts: the client hung up after %zu bytes, before sending any request; counters are {%d,%d,%d}, expected {%d,0,0}", sc.override_stream.size(), R.counts[0], R.counts[1], R.counts[2], wantc[0])); }
 	}
 	error_code ig; cli.close(ig); by.close(ig); pre.close(ig); bindpeer.close(ig); cudp.close(ig); tudp.cancel(ig); uudp.close(ig);
 	try { sim.run(); } catch (std::exception const& e) { fail(std::string("exception: '") + e.what() + "' came out of run() during tear-down"); }
@@ -271,6 +289,7 @@ struct SocksEngine : Engine
 				bytes good4 = B({ 0, 0, 0, 1, 10, 0, 1, 1, 9500 >> 8, 9500 & 0xff }) + "ping-payload"; std::string nm = name_of_len(4); bytes good3 = B({ 0, 0, 0, 3, 4 }) + nm + B({ 9500 >> 8, 9500 & 0xff }) + "ping-payload";
 				{ Scn s; s.neg = n; s.udp_case = 1; s.udp_dgram = good3; s.label = "datagram by name"; one(ctx, u, s, "udp"); }
 				{ Scn s; s.neg = n; s.udp_case = 2; s.udp_dgram = good4; s.label = "datagram by address + third party"; one(ctx, u, s, "udp"); }
+				{ Scn s; s.neg = n; s.udp_case = 6; s.udp_dgram = good4; s.label = "a third party's datagram first, then the client's"; one(ctx, u, s, "udp"); }
 				{ Scn s; s.neg = n; s.udp_case = 4; s.udp_dgram = good3; s.label = "by name, same name again, by address"; one(ctx, u, s, "udp"); }
 				{ Scn s; s.neg = n; s.udp_case = 5; s.udp_dgram = good3; s.label = "burst of three by name during the first lookup"; one(ctx, u, s, "udp"); }
 				for (bytes const* g : { &good4, &good3 }) {
